@@ -75,6 +75,10 @@ pub fn send(ch: &Choices, disk: &Disk, max_frames: u64, small: bool) -> Result<V
             // block lengths beyond the "streamable subset" limits and at the top of the 16-bit field
             probe("c16_block_longer_than_4608");
             *ch.pick("c16.len.b", &[4609usize, 8192, 16384, 16385, 32768, 65535])
+        } else if !small && ch.draw("c16.len.toolong", 40) == 39 {
+            // more samples per channel than a frame header can state: to be refused, nothing emitted
+            probe("c16_block_longer_than_65535");
+            *ch.pick("c16.len.x", &[65536usize, 65537, 65552, 70000, 131071, 131073, 65536 + 4096])
         } else if ch.draw("c16.len.mode", 4) == 3 {
             *ch.pick("c16.len.c", &[128usize, 256, 192, 576, 1152, 512])
         } else {
@@ -83,14 +87,18 @@ pub fn send(ch: &Choices, disk: &Disk, max_frames: u64, small: bool) -> Result<V
         let pcm = draw_pcm(ch, chn, bps, len);
         let before = disk.len(file);
         let res = w.write(rate, chn, bps, &pcm.inter);
-        if UNCODABLE_RATES.contains(&rate) || UNCODABLE_BPS.contains(&bps) {
+        if UNCODABLE_RATES.contains(&rate) || UNCODABLE_BPS.contains(&bps) || len > 65535 {
             match res {
+                Err(_) if disk.len(file) == before && len > 65535 => {
+                    probe("c16_too_long_block_refused");
+                    continue;
+                }
                 Err(_) if disk.len(file) == before => {
                     // refused, nothing emitted: the stream is unaffected
                     probe(if UNCODABLE_BPS.contains(&bps) { "c16_uncodable_depth_refused" } else { "c16_uncodable_rate_refused" });
                     continue;
                 }
-                Err(e) => return Err(format!("frame {i}: rate {rate} / {bps} bits was refused ({e:?}) after {} bytes had been emitted into the stream", disk.len(file) - before)),
+                Err(e) => return Err(format!("frame {i}: rate {rate} / {bps} bits / {len} samples was refused ({e:?}) after {} bytes had been emitted into the stream", disk.len(file) - before)),
                 Ok(()) => probe("c16_uncodable_parameters_accepted"),
             }
         } else {
